@@ -70,3 +70,13 @@ claim("C08", "other",
   "The scanner's id-normalisation plan is extracted from the SSA on every run and interpreted over the extracted tables (a finite evaluation of constants, nothing under /repo is executed): for every active id all four spellings are valid (Q1), for every listed id both spelling pairs denote interchangeable nodes (Q2: equal plus flag and equal id or same family and version group), the family lookup strips exactly the suffix the scanner rewrites (Q3). Exhaustive over all ~670 listed ids.",
   "An unrecognised argument transform or guard in normalizeLicense makes the plan undecided (reported as a violation). Interchangeability inside arbitrary expressions relies on expansion and matching seeing only nodes (C01 X5, C07 W1, C02).",
   "decision-list extraction from SSA + exhaustive evaluation over constant tables", "DESIGN.md section 3 C08")
+
+claim("C14", "other",
+  "Narrow necessary conditions for 'no exponential family': no multiplicative recurrence inside a recursive cycle (C1), no recursive result computed twice on one path (C2), no left recursion in the token parser (C3). The cross product in expandAnd/appendTerms violates C1 on the current tree and is a recorded known finding; any other product or a second instance is still reported.",
+  "A polynomial bound itself (loop bounds over runtime sizes, allocation volume) is NOT decided; scanner progress per iteration is not decided. Loop-nest degrees are reported as information only.",
+  "recurrence-shape analysis over the call graph (product loops x recursive results) + left-recursion check", "DESIGN.md section 3 C14")
+
+claim("C15", "other",
+  "Where reported offsets come from and whether the text they index can differ from the caller's string: every offset-bearing message prints cursor + compensation (O1), every rewrite of the scan buffer books exactly the removed bytes (O2, linear entailment), the cited lexeme was read from the restored position (O3), cursor and compensation invariants are inductive (O4).",
+  "Relies on the linear facts proved by the bounds engine (Fourier-Motzkin over inferred invariants); messages are recognised by the constant fragment 'offset %d' in their format string.",
+  "provenance of message operands + linear entailment on cursor/compensation arithmetic", "DESIGN.md section 3 C15")
